@@ -86,8 +86,8 @@ def breach(mon):
 
 def compare(go_text, model_text):
     """returns (ok, reason)"""
-    if " | " not in go_text:
-        return False, "no result from the real pool: " + go_text[:120]
+    if " | " not in go_text or go_text.split(" ", 1)[0] in ("CRASH", "HANG", "PANIC", "MISSING-RESULT"):
+        return False, "no result from the real pool: " + go_text[:200]
     gm = parse_monitors(go_text.split(" | ", 1)[0])
     b = breach(gm)
     if model_text.startswith("INVALID") or model_text.startswith("bad") or model_text.startswith("MISSING"):
@@ -185,7 +185,7 @@ def run(ctx):
     lines = {}
     for i, p in cases.items():
         g = gores.get(i, "")
-        if " | " in g:
+        if " | " in g and g.startswith("added="):
             lines[i] = p + " | " + g.split(" | ", 1)[1]
     model = checklib.run_driver(ctx, "C09", lines, shards=16) if lines else {}
 
